@@ -161,11 +161,12 @@ def header_model(rng, n, nfields=None, inside_heuristic=True, classes=None):
       extreme   varying, hits the field's min and max
       neg       varying negative values
       zerofirst zero in first trace, non-zero in last
+      sparse    zero in some traces (the first among them), one and the same other value in the rest (a mute time, a static on a few traces)
     and, outside the heuristic's precondition (inside_heuristic=False):
       hidden    first == last but varies inside
       coincide  equals another varying field on first and last trace only
     """
-    classes = classes or ['const', 'vary', 'dup', 'extreme', 'neg', 'zerofirst']
+    classes = classes or ['const', 'vary', 'dup', 'extreme', 'neg', 'zerofirst', 'sparse']
     if not inside_heuristic:
         classes = classes + ['hidden', 'coincide']
     nfields = nfields if nfields is not None else rng.randint(1, 8)
@@ -192,6 +193,10 @@ def header_model(rng, n, nfields=None, inside_heuristic=True, classes=None):
         elif c == 'zerofirst':
             a = np.array([rng.randint(1, 1000) for _ in range(n)], dtype=np.int64)
             a[0] = 0
+        elif c == 'sparse':
+            v = rng.choice([120, -4, rng.randint(1, min(hi, 30000))])
+            a = np.array([v if rng.random() < 0.5 else 0 for _ in range(n)], dtype=np.int64)
+            a[0], a[-1] = 0, v
         elif c == 'dup':
             src = rng.choice(varying)
             lo2, hi2 = field_range(src)
@@ -212,7 +217,7 @@ def header_model(rng, n, nfields=None, inside_heuristic=True, classes=None):
                 c = 'vary'
         if c in ('vary', 'neg') and a[0] == a[-1]:
             a[-1] = a[0] - 1 if a[0] > lo else a[0] + 1
-        if c in ('vary', 'extreme', 'neg', 'zerofirst') and a[0] != a[-1]:
+        if c in ('vary', 'extreme', 'neg', 'zerofirst', 'sparse') and a[0] != a[-1]:
             # a varying field must not coincide on (first,last) with an earlier varying field by accident
             while any(out[v][0] == a[0] and out[v][-1] == a[-1] for v in varying):
                 a[-1] = a[-1] - 1 if a[-1] > lo else a[-1] + 2
